@@ -10,6 +10,7 @@ def main(argv):
     if tier not in ("quick", "thorough"):
         print("tier must be quick or thorough", file=sys.stderr)
         return 2
+    os.environ["VERIF_TIER"] = tier
     from .common import main_wrapper
 
     mod = importlib.import_module(f"vf.props.{pid.lower()}")
